@@ -73,6 +73,15 @@ def check_qf(q, timeout_ms):
     quants = [a for a in A if z3.is_quantifier(a)]
     neg = skolemize_neg_goal(q.goal)
     insts = [z3.simplify(fold(i_)) for i_ in inst.instantiate(quants, ground + neg)]
+    # value table of 2**j as (unfolded) ground facts: an exponent that the arithmetic pins to a numeral then gets its
+    # value by congruence
+    p2 = None
+    for t in inst.subterms(ground + insts + neg):
+        if z3.is_app(t) and t.decl().name() == 'pow2' and t.num_args() == 1 and not z3.is_int_value(t.arg(0)):
+            p2 = t.decl()
+            break
+    if p2 is not None:
+        insts += [p2(z3.IntVal(j)) == z3.IntVal(2 ** j) for j in range(0, 73)]
     r = z3.unknown
     # small portfolio: the legacy arithmetic core is much quicker on div/mod-by-constant identities
     for opts, share in (({'smt.arith.solver': 2}, 0.4), ({}, 1.0)):
@@ -114,7 +123,7 @@ def solve1(q, timeout_ms=10000, use_cvc5=True, full=True):
     cand = m
     if not full:
         return dict(status='unknown', backend='z3', time=time.time() - t0, reason='instantiated query not unsat',
-                    candidate=str(cand)[:4000] if cand is not None else None)
+                    has_candidate=cand is not None)
     # full query
     s = z3.Solver()
     s.set('timeout', timeout_ms)
@@ -134,9 +143,13 @@ def solve1(q, timeout_ms=10000, use_cvc5=True, full=True):
         if r3 is not None and r3['status'] == 'proved':
             r3['time'] = time.time() - t0
             return r3
+    if cand is not None:
+        # counter-model of the instantiated query: satisfies every ground hypothesis and every generated instance of
+        # the quantified ones; the full query could not be refuted or proved.  Reported as refuted (weakened).
+        return dict(status='refuted', backend='z3 (instantiated query)', time=time.time() - t0, weakened=True,
+                    model=model_to_dict(cand), smt_model=str(cand)[:4000])
     return dict(status='unknown', backend='z3+cvc5' if use_cvc5 else 'z3', time=time.time() - t0,
-                reason=s.reason_unknown(), candidate=str(cand)[:4000] if cand is not None else None,
-                candidate_model=model_to_dict(cand) if cand is not None else None)
+                reason=s.reason_unknown())
 
 
 def solve_conj(q, timeout_ms=10000, use_cvc5=True, full=True):
